@@ -184,6 +184,19 @@ EXPR_HOSTS = {
     "dictcomp-key": "y = {<E>: i for i in range(1)}\n",
     "setcomp-elt": "y = {<E> for i in range(1)}\n",
     "fstring-nested-field": "y = f'{f\"{ <E> }\"}'\n",
+    # loop headers under every lowering variant of the loop (plain, with continue, with else, with break, with return)
+    "for-iter-continue": "for i in <E>:\n    if i:\n        continue\n    k = 1\n",
+    "for-iter-else": "for i in <E>:\n    pass\nelse:\n    k = 1\n",
+    "for-iter-continue-else": "for i in <E>:\n    if i:\n        continue\n    k = 1\nelse:\n    k = 2\n",
+    "for-iter-break": "for i in <E>:\n    if i:\n        break\n    k = 1\n",
+    "for-iter-break-else": "for i in <E>:\n    if i:\n        break\nelse:\n    k = 1\n",
+    "for-iter-return": "def f():\n    for i in <E>:\n        if i:\n            return 1\n        k = 1\n",
+    "for-iter-nested-inner": "for j in [1]:\n    for i in <E>:\n        if i:\n            continue\n        k = 1\n",
+    "for-iter-in-class": "class K:\n    for i in <E>:\n        if i:\n            continue\n        k = 1\n",
+    "while-test-continue": "while <E>:\n    if 1:\n        continue\n    k = 1\n",
+    "while-test-else": "while <E>:\n    k = 0\nelse:\n    k = 1\n",
+    "while-test-break-else": "while <E>:\n    if 1:\n        break\nelse:\n    k = 1\n",
+    "while-test-return": "def f():\n    while <E>:\n        if 1:\n            return 1\n        k = 1\n",
     "while-else-expr": "while 0:\n    pass\nelse:\n    <E>\n",
     "elif-test": "if 0:\n    pass\nelif <E>:\n    pass\n",
 }
